@@ -98,6 +98,13 @@ struct Sess<C: Suite> {
     nonces: BTreeMap<Identifier<C>, SigningNonces<C>>,
 }
 
+thread_local! {
+    /// Taproot-tweaked sessions: (raw public key package in its binary encoding, merkle root, encoding of the session's effective
+    /// = tweaked package) so that `all_reject` can offer the same inputs to `aggregate_with_tweak`, which derives the tweaked
+    /// package itself - only when the case at hand uses the session's own package (cases that alter the package are skipped).
+    static TWEAK_CTX: std::cell::RefCell<Option<(Vec<u8>, Option<Vec<u8>>, Vec<u8>)>> = const { std::cell::RefCell::new(None) };
+}
+
 fn all_reject<C: Suite>(
     rep: &mut RunReport,
     what: &str,
@@ -105,7 +112,16 @@ fn all_reject<C: Suite>(
     shares: &BTreeMap<Identifier<C>, SignatureShare<C>>,
     pk: &PublicKeyPackage<C>,
 ) -> Option<Violation> {
-    for (mname, r) in aggregate_all::<C>(pkg, shares, pk) {
+    let mut results = aggregate_all::<C>(pkg, shares, pk);
+    if let Some((raw, root, effective)) = TWEAK_CTX.with(|c| c.borrow().clone()) {
+        if pk.serialize().ok().as_deref() != Some(&effective[..]) {
+            // the case replaced or altered the public key package: the raw package does not correspond to it
+        } else if let Ok(raw_pk) = PublicKeyPackage::<C>::deserialize(&raw) {
+            results.push(("aggregate_with_tweak", C::aggregate_with_tweak(pkg, shares, &raw_pk, root.as_deref())));
+            rep.probe("all_reject_with_tweak_entry_point");
+        }
+    }
+    for (mname, r) in results {
         rep.evaluations += 1;
         if let Ok(sig) = r {
             let valid = pk.verifying_key().verify(pkg.message(), &sig).is_ok();
@@ -153,6 +169,16 @@ fn exec_c<C: Suite>(scen: &Scenario) -> Exec {
     };
     let a = &sess[0].1;
     let b = &sess[1].1;
+    // the raw (untweaked) package of session A for the tweak entry point
+    TWEAK_CTX.with(|c| {
+        *c.borrow_mut() = match &mode {
+            SignMode::Tweak(root) => sim.history.iter().find_map(|r| match r {
+                Record::Session { inst, pk, .. } if *inst == sess[0].0 => pk.serialize().ok().map(|b| (b, crate::tr::root_bytes(root.as_deref()), a.pk.serialize().unwrap_or_default())),
+                _ => None,
+            }),
+            _ => None,
+        }
+    });
     let ids: Vec<Identifier<C>> = a.shares.keys().cloned().collect();
     let k = ids.len();
     let vk = *a.pk.verifying_key();
